@@ -146,7 +146,11 @@ def check(ck):
                 scan.append((hf, p))
     for fi, param in scan:
         g = cfg_of(fi)
-        for (n, c) in q.call_sites(prog, fi, lambda r, c: isinstance(r, str) and r.startswith("class:jsonclass.")):
+        from vlib import narrow as _nw15
+        _exc15 = _nw15.program_exception_parents(prog)
+        # (an exception object carries what it is given up to its handler: raising it mutates nothing)
+        for (n, c) in q.call_sites(prog, fi, lambda r, c: isinstance(r, str) and r.startswith("class:jsonclass.") and
+                                   r.split(".")[-1] not in _exc15 and r.split(".")[-1] != "TranslationError"):
             for a in list(c.args) + [k.value for k in c.keywords]:
                 if any(_rooted(x, param) for x in prov.value_alts(prov.origin(g, n, a))):
                     raise AnalysisError("the argument of %s escapes into an instance (`%s`): mutation through instance fields is not modelled"
